@@ -989,6 +989,7 @@ fn constraint_menu() -> Vec<(String, String)> {
         ("qlist", "\"v|w\""),
         ("datetime", "2024-03-01T12:30:45+01:00"),
         ("datetime-z", "2024-03-01T11:30:45Z"),
+        ("datetime-subsec", "2024-03-01T12:30:45.250+01:00"),
         ("qdigits", "\"5\""),
         ("qnull", "\"null\""),
         ("qtrue", "\"true\""),
@@ -1153,6 +1154,8 @@ fn prog_operators() -> Vec<(String, DataOperator<'static>)> {
     add("ExactDatetime", DataOperator::ExactDatetime(dt(t)));
     add("ExactDatetime-utc", DataOperator::ExactDatetime(dt("2024-03-01T11:30:45Z")));
     add("AfterDatetime", DataOperator::AfterDatetime(dt(t)));
+    add("ExactDatetime-subsec", DataOperator::ExactDatetime(dt("2024-03-01T12:30:45.250+01:00")));
+    add("AfterDatetime-subsec-utc", DataOperator::AfterDatetime(dt("2024-03-01T11:30:45.000001Z")));
     add("BeforeDatetime", DataOperator::BeforeDatetime(dt(t)));
     add("AtOrAfterDatetime", DataOperator::AtOrAfterDatetime(dt(t)));
     add("AtOrBeforeDatetime", DataOperator::AtOrBeforeDatetime(dt(t)));
